@@ -616,19 +616,16 @@ class DataFrameSchemaBackend(PolarsSchemaBackend):
         self,
         check_obj: pl.LazyFrame,
         schema,
-    ) -> CoreCheckResult:
+    ) -> List[CoreCheckResult]:
         """Check that column values are unique."""
 
-        passed = True
-        message = None
-        failure_cases = None
-        check_output = None
-
         if not schema.unique:
-            return CoreCheckResult(
-                passed=passed,
-                check="dataframe_column_labels_unique",
-            )
+            return [
+                CoreCheckResult(
+                    passed=True,
+                    check="dataframe_column_labels_unique",
+                )
+            ]
 
         # NOTE: fix this pylint error
         # pylint: disable=not-an-iterable
@@ -638,6 +635,9 @@ class DataFrameSchemaBackend(PolarsSchemaBackend):
             else schema.unique
         )
 
+        # one result per violated constraint: the lazy report and
+        # drop_invalid_rows need the duplicated rows of every one of them
+        results = []
         for lst in temp_unique:
             subset = [
                 x for x in lst if x in get_lazyframe_column_names(check_obj)
@@ -652,16 +652,24 @@ class DataFrameSchemaBackend(PolarsSchemaBackend):
                 # output, like the column-level uniqueness check does: the
                 # lazy error report and drop_invalid_rows need both.
                 failure_cases = check_obj.filter(duplicates).collect()
-                check_output = duplicates.not_().alias(CHECK_OUTPUT_KEY).to_frame()
-
-                passed = False
-                message = f"columns '{*subset,}' not unique:\n{failure_cases}"
-                break
-        return CoreCheckResult(
-            passed=passed,
-            check="multiple_fields_uniqueness",
-            check_output=check_output,
-            reason_code=SchemaErrorReason.DUPLICATES,
-            message=message,
-            failure_cases=failure_cases,
-        )
+                results.append(
+                    CoreCheckResult(
+                        passed=False,
+                        check="multiple_fields_uniqueness",
+                        check_output=duplicates.not_()
+                        .alias(CHECK_OUTPUT_KEY)
+                        .to_frame(),
+                        reason_code=SchemaErrorReason.DUPLICATES,
+                        message=(
+                            f"columns '{*subset,}' not unique:\n{failure_cases}"
+                        ),
+                        failure_cases=failure_cases,
+                    )
+                )
+        return results or [
+            CoreCheckResult(
+                passed=True,
+                check="multiple_fields_uniqueness",
+                reason_code=SchemaErrorReason.DUPLICATES,
+            )
+        ]
